@@ -28,13 +28,32 @@ class D(L, R):
     pass
 
 
-for _c in (Base, L, R, D):
+# multiple inheritance over UNRELATED classes (round 5): with these, "more specific than" on parameter lists is not
+# transitive - E is an LL, an L and an R; L || R, R || LL, LL < L;  G is a D and a U;  U is unrelated to all of Base
+class LL(L):
+    pass
+
+
+class E(LL, R):
+    pass
+
+
+class U(object):
+    pass
+
+
+class G(D, U):
+    pass
+
+
+for _c in (Base, L, R, D, LL, E, U, G):
     _c.__repr__ = lambda self: '<%s>' % type(self).__name__
 
 LATTICE = dict(Base=Base, L=L, R=R, D=D, int=int, str=str, object=object, NoneType=type(None), bool=bool,
-               float=float)
+               float=float, LL=LL, E=E, U=U, G=G)
 
-CORPUS = [Base(), L(), R(), D(), D(), 0, 7, True, 'a', 'bb', 2.5, (1, 2)]     # tag = index
+# tag = index; 0..11 are what every generator written before round 5 draws from
+CORPUS = [Base(), L(), R(), D(), D(), 0, 7, True, 'a', 'bb', 2.5, (1, 2), E(), G(), LL(), U()]
 CONSTS = [1, 0, 'a', 'k', True, False, None, 2.5, 'abc']                      # tag = 1000 + index
 
 
@@ -115,6 +134,10 @@ class Tables:
         for i, x in enumerate(CONSTS):
             if type(x) is type(v) and x == v:
                 return 1000 + i
+        if type(v) is tuple:            # an entry point that converts its input hands over an equal copy
+            for i, x in enumerate(CORPUS):
+                if type(x) is tuple and x == v:
+                    return i
         return 9999
 
     def val(self, v):
@@ -160,10 +183,13 @@ def warm_up():
 
 
 def make_type(ts):
-    """ts: None (undeclared) | 'String' .. | ['py', clsname, nullable]"""
+    """ts: None (undeclared) | 'String' .. | ['py', clsname, nullable] | ['py', [clsname, ..], nullable] (a tuple of
+    classes, as `Number()` has)"""
     if ts is None:
         return None
     if isinstance(ts, (list, tuple)):
+        if isinstance(ts[1], (list, tuple)):
+            return yaqltypes.PythonType(tuple(LATTICE[c] for c in ts[1]), ts[2])
         return yaqltypes.PythonType(LATTICE[ts[1]], ts[2])
     return TYPE_SPECS[ts]()
 
@@ -1362,6 +1388,18 @@ def _more_specific(m1, m2):
     return any(_strict_sub(a, b) for a, b in pairs)
 
 
+def _nontransitive(ms):
+    """input statistic: three of the matches with a > b, b > c and NOT a > c (a, c incomparable)"""
+    for _, a in ms:
+        for _, b in ms:
+            if b is a or not _more_specific(a, b):
+                continue
+            for _, c in ms:
+                if c is not a and c is not b and _more_specific(b, c) and not _more_specific(a, c):
+                    return True
+    return False
+
+
 def _is_lazy(t):
     return isinstance(t, yaqltypes.LazyParameterType)
 
@@ -1446,9 +1484,10 @@ def _spec_resolve(fam, call, name, chain):
         if not ms:
             continue
         best = [fd for fd, m in ms if all(o is fd or _more_specific(m, om) for o, om in ms)]
+        nt = _nontransitive(ms) if len(ms) >= 3 else False
         if len(best) == 1:
-            return dict(id=best[0], log=log, nmapped=len(flat), nmatch=len(ms))
-        return dict(err='Ambiguous', log=log, nmapped=len(flat), nmatch=len(ms))
+            return dict(id=best[0], log=log, nmapped=len(flat), nmatch=len(ms), nontransitive=nt)
+        return dict(err='Ambiguous', log=log, nmapped=len(flat), nmatch=len(ms), nontransitive=nt)
     return dict(err='NoMatching', log=log, nmapped=len(flat))
 
 
